@@ -52,6 +52,7 @@ fn canonical_scenario(p: &Program, variant: u32) -> C12Scenario {
         clock_step_ns: 0,
         cpus: 0,
         tmp_missing: false,
+        env_fuzz: 0,
         pid: CANON_PID,
         schedule: vec![Round { jobs: vec![Job { thread: 0, program: 0, measured: true, perturb: vec![] }], interleave_seed: 0, switch_permille: 0 }],
         expect: None,
@@ -285,10 +286,41 @@ fn random_perturb(rng: &mut Rng) -> Vec<PlanItem> {
     v
 }
 
+/// The program as it was one edit ago: one top-level one-line statement deleted, or a fresh
+/// definition inserted before a top-level line — the history of a file that is transpiled
+/// again after every change (watch mode).  `None` when the text has no such line.
+fn edited(p: &Program, rng: &mut Rng) -> Option<Program> {
+    let mut q = p.clone();
+    let fi = rng.below(q.files.len().max(1) as u64) as usize;
+    let f = q.files.get_mut(fi)?;
+    if f.text.contains('\r') {
+        return None;
+    }
+    let lines: Vec<&str> = f.text.lines().collect();
+    // top-level lines that are whole statements (the next line is not indented)
+    let tops: Vec<usize> = (0..lines.len())
+        .filter(|&i| !lines[i].is_empty() && !lines[i].starts_with(' ') && !lines[i].starts_with('\t') && !lines[i].starts_with('#') && lines.get(i + 1).map(|n| !n.starts_with(' ') && !n.starts_with('\t')).unwrap_or(true))
+        .collect();
+    if tops.is_empty() {
+        return None;
+    }
+    let k = *rng.pick(&tops);
+    let mut out: Vec<String> = lines.iter().map(|l| l.to_string()).collect();
+    if rng.chance(1, 2) && !lines[k].starts_with("from ") && !lines[k].starts_with("import ") {
+        out.remove(k);
+    } else {
+        let at = if lines[k].starts_with("from ") || lines[k].starts_with("import ") { k + 1 } else { k };
+        out.insert(at, format!("def zzed{} := 0", rng.below(90)));
+    }
+    f.text = out.join("\n") + "\n";
+    q.label = format!("edit of {}", p.label);
+    Some(q)
+}
+
 /// Build the non-canonical scenarios: the (program, configuration) evaluations are shuffled
 /// and cut into batches; every batch is one process with 1–4 simulated threads; every job is
 /// measured and at the same time is "earlier work" for the jobs after it.
-pub fn build_scenarios(seed: u64, programs: &[Program], configs: &[usize], rng: &mut Rng) -> Vec<C12Scenario> {
+pub fn build_scenarios(seed: u64, programs: &[Program], configs: &[usize], rng: &mut Rng, fenced: &BTreeSet<String>) -> Vec<C12Scenario> {
     // program index -> index of the program with the same files and the other annotate value
     let mut by_text: BTreeMap<String, Vec<usize>> = BTreeMap::new();
     for (i, p) in programs.iter().enumerate() {
@@ -337,6 +369,7 @@ pub fn build_scenarios(seed: u64, programs: &[Program], configs: &[usize], rng: 
             });
         }
         let mut schedule = vec![];
+        let mut extras: Vec<Program> = vec![];
         let mut k = 0;
         while k < batch.len() {
             let concurrent = nthreads >= 2 && batch.len() - k >= 2 && rng.chance(1, 3);
@@ -372,6 +405,23 @@ pub fn build_scenarios(seed: u64, programs: &[Program], configs: &[usize], rng: 
                 k += n;
             } else {
                 let t = rng.below(nthreads as u64) as usize;
+                // "edit": the same thread has just transpiled the file as it was one edit ago
+                if rng.chance(1, 5) {
+                    if let Some(e) = edited(&programs[batch[k]], rng) {
+                        let builtins = corpus::builtin_names();
+                        let feats = corpus::features_of(&e.files, &builtins);
+                        if !feats.iter().any(|f| fenced.contains(f)) {
+                            let mut e = e;
+                            e.features = feats;
+                            extras.push(e);
+                            schedule.push(Round {
+                                jobs: vec![Job { thread: t, program: usize::MAX - (extras.len() - 1), measured: true, perturb: vec![] }],
+                                interleave_seed: 0,
+                                switch_permille: 0,
+                            });
+                        }
+                    }
+                }
                 schedule.push(Round {
                     jobs: vec![Job { thread: t, program: idx_of[&batch[k]], measured: true, perturb: random_perturb(rng) }],
                     interleave_seed: 0,
@@ -389,12 +439,20 @@ pub fn build_scenarios(seed: u64, programs: &[Program], configs: &[usize], rng: 
                 k += 1;
             }
         }
+        // the edited programs go behind the pool programs of this scenario
+        for r in schedule.iter_mut() {
+            for j in r.jobs.iter_mut() {
+                if j.program > usize::MAX / 2 {
+                    j.program = local.len() + (usize::MAX - j.program);
+                }
+            }
+        }
         let (env, cwd) = random_env(rng);
         out.push(C12Scenario {
             property: "C12".into(),
             seed,
             index: out.len() as u64,
-            programs: local.iter().map(|&p| programs[p].clone()).collect(),
+            programs: local.iter().map(|&p| programs[p].clone()).chain(extras.into_iter()).collect(),
             threads,
             env,
             cwd,
@@ -403,6 +461,7 @@ pub fn build_scenarios(seed: u64, programs: &[Program], configs: &[usize], rng: 
             clock_step_ns: *rng.pick(&[0i64, 0, 1_000, 1_000_000, 40_000_000, 1_000_000_000, 3_600_000_000_000]),
             cpus: *rng.pick(&[0u32, 0, 1, 2, 3, 16, 64]),
             tmp_missing: rng.chance(1, 8),
+            env_fuzz: if rng.chance(1, 3) { rng.next() | 1 } else { 0 },
             pid: if rng.chance(1, 2) { CANON_PID } else { rng.range(2, 4_000_000) as i32 },
             schedule,
             expect: None,
@@ -515,7 +574,10 @@ pub fn minimise(sc: &C12Scenario, viol: &Violation, refs: &mut RefCache, budget:
     for step in 0..7 {
         let mut c = best.clone();
         match step {
-            0 => c.env.clear(),
+            0 => {
+                c.env.clear();
+                c.env_fuzz = 0;
+            }
             1 => c.cwd = "/".into(),
             2 => {
                 c.clock = CANON_CLOCK;
@@ -670,7 +732,7 @@ pub fn dims(sc: &C12Scenario) -> Vec<String> {
     if sc.pid != CANON_PID {
         d.push("pid".to_string());
     }
-    if !sc.env.is_empty() {
+    if !sc.env.is_empty() || sc.env_fuzz != 0 {
         d.push("env".to_string());
     }
     if sc.cwd != "/" {
@@ -926,12 +988,30 @@ pub fn run_check(tier_name: &str, seed: u64, verif_dir: &str) -> Outcome {
     }
 
     // ---- the seeded scenarios
+    let edited_programs;
     let active_configs: Vec<usize> = configs
         .iter()
         .enumerate()
         .map(|(i, &k)| if programs[i].features.iter().any(|f| fenced.contains(f)) { 0 } else { k })
         .collect();
-    let scenarios = build_scenarios(seed, &programs, &active_configs, &mut rng.fork(3));
+    let scenarios = build_scenarios(seed, &programs, &active_configs, &mut rng.fork(3), &fenced);
+    // canonical references of the programs the scenarios made themselves (edited versions)
+    {
+        let mut seen: BTreeSet<String> = refs.map.keys().cloned().collect();
+        let mut extra: Vec<Program> = vec![];
+        for sc in &scenarios {
+            for p in &sc.programs {
+                if seen.insert(program_key(p)) {
+                    extra.push(p.clone());
+                }
+            }
+        }
+        let rs: Vec<JobResult> = par_map(&extra, w, |_, p| run_scenario(&canonical_scenario(p, 0)).jobs.pop().unwrap_or_default());
+        for (p, r) in extra.iter().zip(rs.into_iter()) {
+            refs.map.insert(program_key(p), r);
+        }
+        edited_programs = extra.len();
+    }
     // "marathons": one long-lived thread that transpiles a long sequence of mostly REJECTED
     // programs — state that accumulates over many calls (a leaked counter, a growing table)
     // needs a long history to matter
@@ -968,6 +1048,7 @@ pub fn run_check(tier_name: &str, seed: u64, verif_dir: &str) -> Outcome {
                     clock_step_ns: 0,
                     cpus: 0,
                     tmp_missing: false,
+                    env_fuzz: 0,
                     pid: CANON_PID,
                     schedule,
                     expect: None,
@@ -1146,6 +1227,9 @@ pub fn run_check(tier_name: &str, seed: u64, verif_dir: &str) -> Outcome {
             "verdicts": verdicts,
             "distinct_hash_orders": orders.len(),
             "jobs_with_earlier_jobs_in_process": with_history,
+            "edited_versions_run_before_their_program_on_the_same_thread": edited_programs,
+            "scenarios_with_environment_fuzzing": scenarios.iter().filter(|s| s.env_fuzz != 0).count(),
+            "environment_variables_asked_for": results.iter().flat_map(|r| r.jobs.iter()).flat_map(|j| j.env_reads.iter().cloned()).collect::<BTreeSet<String>>(),
             "programs_run_through_transpile_dir": programs.iter().filter(|p| p.path_mode == "dir").count(),
             "jobs_repeating_an_earlier_job_of_their_thread": scenarios.iter().map(|sc| {
                 let mut seen = BTreeSet::new();
